@@ -118,6 +118,11 @@ FUnit2(r) == LET c == r.in.c2 P == P2(r.in.pdf2, c.xs) IN
                             f == Cmp(r.out.d, r.out.m, VScale(r.in.theta, r.in.common), T, "Unit")
                         IN  IF "UnitQuadrature" \in f /\ Cmp(r.out.d, r.out.m, VScale(RMul(r.in.theta, RSub("1", P.cn.LL)), r.in.common), T, "Unit") = {}
                             THEN (f \ {"UnitQuadrature"}) \cup {"BothLethalCornerMissing"} ELSE f)
+\* one call of a session on a shared cache object: observed at a position of two differently ordered sessions
+\* (out.a, out.b) and on a freshly built object (out.fresh); the objects' digests before / after the sessions
+FHistory(r) == IF Raised(r) THEN {"Raised"}
+               ELSE F("HistoryIndependent", HistoryIndependent(r.out.a, r.out.fresh) /\ HistoryIndependent(r.out.b, r.out.fresh))
+FObject(r)  == F("ObjectUnchanged", \A k \in DOMAIN r.out.after : ObjectUnchanged(r.out.before, r.out.after[k]))
 \* two calls that differ only in theta
 FThetaPair(r) == IF "raised" \in DOMAIN r.out THEN {"Raised"}
                  ELSE F("LinearInTheta", Len(r.out.d1) = Len(r.out.d2) /\ \A k \in 1..Len(r.out.d1) :
@@ -144,6 +149,8 @@ Failed(r) == CASE r.op = "integrate1d" -> FInt1(r)
                [] r.op = "unit1d"      -> FUnit1(r)
                [] r.op = "unit2d"      -> FUnit2(r)
                [] r.op = "theta_pair"  -> FThetaPair(r)
+               [] r.op = "history"     -> FHistory(r)
+               [] r.op = "object"      -> FObject(r)
                [] r.op = "pdf2d"       -> FPdf2(r)
                [] OTHER -> {"UnknownOp"}
 
